@@ -17,13 +17,16 @@ pub mod gen;
 pub mod prog;
 pub mod enc;
 pub mod cffi;
+pub mod txgen;
 
 pub mod c01;
 pub mod c02;
 pub mod c03;
 pub mod c04;
 pub mod c05;
+pub mod c06;
 pub mod c07;
+pub mod c08;
 pub mod c09;
 pub mod c10;
 pub mod c11;
